@@ -123,7 +123,7 @@ def classify(name, defn, inp=None, prop=None, observed=None):
         # crashes (same defect as the single-job sample of C01)
         return "KF-PARTIAL-EVIDENCE"
     if fid is None and inp is not None:
-        if inp.get("mode") == "c01sub" and name in ("F", "K", "FS", "FL", "FK", "FD", "FX", "FE", "FT"):
+        if inp.get("mode") == "c01sub" and name in ("F", "K", "FS", "FL", "FK", "FD", "FX", "FE", "FT", "FW"):
             return "KF-PARTIAL-EVIDENCE"
         if name == "FB" and _nbreaks_all(defn) >= 1:
             return "KF-EXT-BREAK-FORK"
@@ -147,7 +147,7 @@ def classify_structure(name, defn):
         return "KF-CORPUS-KILL-MERGE"
     if name and "loop_with_2_breaks_one_leads_to_other" in name:
         return "KF-CORPUS-2BREAKS"
-    if name and name not in ("F", "F+", "K", "FB", "FS", "FL", "FK", "FD", "FX", "FE", "FT"):
+    if name and name not in ("F", "F+", "K", "FB", "FS", "FL", "FK", "FD", "FX", "FE", "FT", "FW"):
         return None
     if nested_break(defn):
         return "KF-NESTED-BREAK"
